@@ -157,6 +157,18 @@ def random_line(rng):
     return line(size, nlocks, nqueues, nctr, deps, progs, "X", rand_sched(rng, n, rng.randint(10, 90))), kind
 
 
+def solo_lines(rng, count):
+    """one thread: every pop runs without interference, so pop_available applies to each of them"""
+    ops = []
+    for _ in range(count):
+        nlocks, ntasks = rng.randint(1, 3), rng.randint(1, 5)
+        deps = rand_deps(rng, nlocks, ntasks)
+        kinds = ["a", "a", "a", "p", "p", "tp", "ut", "tl", "u", "lt", "qs"]
+        prog = rand_prog(rng, kinds, rng.randint(4, 14), 1, nlocks, 2, 1, ntasks)
+        ops.append(line(1, nlocks, 2, 1, deps, [prog], "X", "0"))
+    return ops
+
+
 def adversarial_lines(rng, count):
     """pools of size 2-3 that fill up and wrap, 3-4 threads, preemption right after the flag CAS"""
     ops = []
@@ -250,6 +262,7 @@ def run(ctx):
         kinds[k] = kinds.get(k, 0) + 1
     streams.append(("random-schedules", rnd))
     streams.append(("adversarial-pool", adversarial_lines(rng, ctx.budget(400, 20000))))
+    streams.append(("solo-pops", solo_lines(rng, ctx.budget(300, 10000))))
     streams.append(("free-running", free_lines(rng, ctx.budget(40, 600))))
     ctx.cov["rule"] = ("schedule replay of the real containers (hook H1, baton scheduler, real std::threads): "
                        "every schedule prefix of length %d for %d two-thread program pairs (completed round-robin), "
